@@ -457,4 +457,47 @@ Section Steps.
       { rewrite Vt, Hct, ostr_eqb_refl. reflexivity. }
       rewrite Hf, app_nil_r. apply filter_remove_first. rewrite Hct, ostr_eqb_refl. reflexivity.
   Qed.
+  (* ---------------------------------------------------------------- NewID / Terminate take effect *)
+  Lemma filter_none {A} (p : A -> bool) l : (forall x, In x l -> p x = false) -> filter p l = [].
+  Proof.
+    induction l as [|x r IH]; [reflexivity|]. intros H. cbn [filter]. rewrite (H x (or_introl eq_refl)).
+    apply IH. intros y Hy. apply H. right. exact Hy.
+  Qed.
+
+  Lemma wanted_target n newid enc term x :
+    wanted n newid enc term = Some x -> exists n', manage_target n newid enc term = Some n' /\ spid n' = x.
+  Proof.
+    unfold wanted, manage_target. destruct newid as [y|].
+    - intros E. inversion E; subst. eexists. split; reflexivity.
+    - destruct enc; [intros E; inversion E; subst; eexists; split; reflexivity|].
+      destruct term; [|discriminate]. intros E. inversion E; subst. eexists. split; reflexivity.
+  Qed.
+
+  Theorem effect_ok seen d o (pre : trace) :
+    Inv seen d -> wf_event seen (ev d o) -> effect_event pre (ev d o).
+  Proof.
+    intros HI Hwf n newid enc term u x Eo Hl Hin Hw. unfold ev in Eo, Hl, Hin |- *.
+    cbn [e_op e_out e_pre e_post] in Eo, Hl, Hin |- *. subst o.
+    destruct Hwf as (_ & W2 & _). unfold ev in W2; cbn [e_op arg_nid] in W2.
+    destruct (wanted_target n newid enc term x Hw) as (n' & Em & Hx).
+    destruct (txt n) as [t|] eqn:Etn; [|discriminate]. cbn [lookup_opt] in Hl.
+    assert (Htu : is_user t = false) by (apply (W2 n t); [reflexivity|exact Etn]).
+    destruct (fw_in_elements d u (code n) Hin) as (v & Hv & Hel & _).
+    assert (Er : exists d1, remove_remote d n = Ok d1).
+    { unfold remove_remote. rewrite Etn, Hl, Hv. apply mem_In in Hel. rewrite Hel. eexists. reflexivity. }
+    destruct Er as (d1 & Er).
+    destruct (manage_target_view _ _ _ _ _ Em) as (E1 & E2 & E3 & E4).
+    assert (Et' : txt n' = Some t) by congruence.
+    rewrite step_fst, step_snd. cbn [plan]. unfold plan_manage, find_local_id.
+    rewrite Em, Er, Etn, Et'. cbn [lookup_opt]. rewrite Hl. cbn [fst snd apply_action]. rewrite Er.
+    destruct (remove_inv is_user seen d n d1 t HI Er Etn Htu) as (id' & Hl' & Hid & _ & Hne & HI1 & Hn1 & Hfw & _).
+    assert (id' = u) by congruence. subst id'.
+    exists n'. split; [reflexivity|]. split; [exact Hx|].
+    rewrite (store_fw_u is_user d1 u n' t Hid Et' Hne Htu), Hfw. unfold with_text.
+    rewrite filter_app. cbn [filter].
+    rewrite (ctext_code_some n' t Et' Hne), ostr_eqb_refl.
+    rewrite filter_none; [reflexivity|].
+    intros c Hc. apply ostr_eqb_neq. rewrite <- (ctext_code_some n t Etn Hne).
+    apply (nodup_remove_first_notin ctext (code n) c (fw d u)); [apply (inv_nodup _ _ _ HI u Hid)|exact Hin|exact Hc].
+  Qed.
 End Steps.
